@@ -127,8 +127,9 @@ TwinChecks(r) ==
              cax == FieldClassAx(fa, r.integration, r.wca)
          IN  <<fa.name,
                CASE r.rel = "same" -> IF r.fine < 0 THEN SameFine(fa, fb, Field(r.R, fa.name).t, r.slack, r.fine) ELSE SameField(fa, fb, r.slack)
-                 [] r.rel = "perm" -> IF r.fine < 0 THEN PermFine(fa, fb, Field(r.R, fa.name).t, cax, r.pi, r.slack, r.fine)
-                                      ELSE PermField(fa, fb, cax, r.pi, r.slack)
+                 [] r.rel = "perm" -> LET amp == IF Len(r.amp) = 0 THEN FZero ELSE r.amp[i]
+                                      IN  IF r.fine < 0 THEN PermFineA(fa, fb, Field(r.R, fa.name).t, cax, r.pi, r.slack, r.fine, amp)
+                                          ELSE PermFieldA(fa, fb, cax, r.pi, r.slack, amp)
                  [] r.rel = "slice" -> SliceField(fa, fb, r.lead, r.slack)>>]
 \* non-trivial: perm: pi not the identity and the classes differ; slice: >= 2 differing slices (driver flag
 \* cross-checked: the compared field has > 1 element); same: the transformation was non-trivial (driver)
